@@ -656,21 +656,20 @@ func main() {
 
 	// confirmation of suspects: three fresh processes each
 	confirm := func(l workerLine) (bool, workerLine) {
+		// fresh processes, one after the other (running them side by side would
+		// only add load)
 		rs := make([]workerLine, 3)
-		var cw sync.WaitGroup
 		for i := range rs {
-			cw.Add(1)
-			go func(i int) {
-				defer cw.Done()
-				cmd := exec.Command(self, "-dir", e.Dir, "-one", strconv.Itoa(l.Idx))
-				outb, err := cmd.Output()
-				if err != nil || json.Unmarshal(bytes.TrimSpace(outb), &rs[i]) != nil {
-					rs[i].Status = "crash"
-					rs[i].Panic = fmt.Sprintf("confirmation run failed: %v: %s", err, string(outb))
-				}
-			}(i)
+			cmd := exec.Command(self, "-dir", e.Dir, "-one", strconv.Itoa(l.Idx))
+			outb, err := cmd.Output()
+			if err != nil || json.Unmarshal(bytes.TrimSpace(outb), &rs[i]) != nil {
+				rs[i].Status = "crash"
+				rs[i].Panic = fmt.Sprintf("confirmation run failed: %v: %s", err, string(outb))
+			}
+			if rs[i].Status == "ok" {
+				return false, rs[i] // not reproduced: no need for the other runs
+			}
 		}
-		cw.Wait()
 		// hang, slow and over-budget are one class (which one shows depends on
 		// the load of the machine); a leak must be a leak every time
 		resource := func(s string) bool { return s == "timeout" || s == "slow" || s == "alloc" }
@@ -692,6 +691,7 @@ func main() {
 	var maxAlloc uint64
 	statusCount := map[string]int{}
 	confirmed := map[string]int{}
+	tried := map[string]int{}
 	unconfirmed := 0
 	for _, l := range all {
 		statusCount[l.Status]++
@@ -709,14 +709,14 @@ func main() {
 			}
 			e.Sample(5, map[string]any{"kind": l.Kind, "label": l.Label, "mode": l.Mode, "len": l.Len, "ms": l.Millis, "alloc": l.Alloc, "stats": st})
 			if l.Status == "ok" && l.Len > 0 {
-				if v := l.Millis / (float64(l.Len)/1024 + 1); v > maxMsPerKB {
+				if v := l.CPUMillis / (float64(l.Len)/1024 + 1); v > maxMsPerKB {
 					maxMsPerKB = v
 				}
 				if v := float64(l.Alloc) / float64(l.Len+1); v > maxAllocPerByte {
 					maxAllocPerByte = v
 				}
-				if l.Millis > maxMs {
-					maxMs = l.Millis
+				if l.CPUMillis > maxMs {
+					maxMs = l.CPUMillis
 				}
 				if l.Alloc > maxAlloc {
 					maxAlloc = l.Alloc
@@ -804,9 +804,10 @@ func main() {
 				// readXRefStream does not close the decoded cross-reference stream (findings/C05.json)
 				sig = "goroutine-leak:xref-stream-behind-pipe"
 			}
-			if confirmed[sig] >= 2 {
-				continue // enough failing inputs of this kind; each costs 3 fresh runs
+			if confirmed[sig] >= 1 || tried[sig] >= 3 {
+				continue // one confirmed failing input of a kind is enough; each costs 3 fresh runs
 			}
+			tried[sig]++
 			ok, r := confirm(l)
 			if !ok {
 				unconfirmed++
@@ -821,9 +822,10 @@ func main() {
 			}
 			confirmed[sig]++
 			what := map[string]string{
-				"timeout": fmt.Sprintf("no return within %s (3 of 3 fresh processes)", hangTimeout),
-				"leak":    fmt.Sprintf("goroutines %d -> %d after the call returned and the grace period (3 of 3 fresh processes)", r.GorBefore, r.GorAfter),
-				"slow":    fmt.Sprintf("%.0f ms for %d bytes, budget %.0f ms; TotalAlloc %d (3 of 3 fresh processes over budget or hanging)", r.Millis, l.Len, r.BudgetTime, r.Alloc),
+				"timeout": fmt.Sprintf("no return after %.1f s of CPU time (limit %s for %d bytes) and %.1f s of wall time (guard %s), in 3 of 3 fresh processes run one after the other",
+					r.CPUMillis/1000, hangCPU(l.Len), l.Len, r.Millis/1000, hangWall),
+				"leak": fmt.Sprintf("goroutines %d -> %d after the call returned; left over and parked (none runnable): %s (3 of 3 fresh processes)", r.GorBefore, r.GorAfter, trunc(r.Leaked, 200)),
+				"slow": fmt.Sprintf("%.0f ms of CPU time for %d bytes, budget %.0f ms; TotalAlloc %d (3 of 3 fresh processes over budget or hanging)", r.CPUMillis, l.Len, r.BudgetTime, r.Alloc),
 				"alloc":   fmt.Sprintf("TotalAlloc %d bytes for %d input bytes, budget %d (3 of 3 fresh processes over budget or hanging)", r.Alloc, l.Len, r.BudgetMem),
 			}[r.Status]
 			e.Fail(sig, what, failCase(e, l))
@@ -844,7 +846,7 @@ func main() {
 			"measured_max_alloc_bytes": maxAlloc,
 			"measured_max_ms_per_kb":   maxMsPerKB,
 			"measured_max_alloc_per_b": maxAllocPerByte,
-			"budget_time":              "3000 ms + 0.15 ms per input byte; hang watchdog 10 s",
+			"budget_time":              "CPU time (user+sys of the worker process) 3000 ms + 0.15 ms per input byte; a case is given up after twice that + 3 s of CPU, or 90 s of wall time without returning (suspect, confirmed only by 3 sequential fresh re-runs)",
 			"budget_alloc":             "TotalAlloc <= 512 MiB + 16 KiB per input byte; heap guard 4 GiB",
 			"measured_not_proved":      "wall time, allocation and goroutine counts are measurements on the implementation, not theorems",
 		})
